@@ -68,6 +68,15 @@ def cases(tier, seed):
                    "swhere": swhere, "sval": sval, "order": order,
                    "via": vias[(j + n) % 4], "reload": (j // 3 + n) % 4,
                    "const": (j + n) % 3 == 0}
+            if kind in ("grid", "mix") and core.pick(
+                    [n, mode, req, kind, swhere, sval, order], 6) == 0:
+                # the same, after an earlier un-reaped sweep through the
+                # same Crop object (every batch is then grown explicitly)
+                yield {"n": n, "mode": mode, "req": req, "kind": kind,
+                       "swhere": swhere, "sval": sval, "order": order,
+                       "via": ["grow", "cropgrow", "twice"][(j + n) % 3],
+                       "reload": (j // 3 + n) % 4,
+                       "const": (j + n) % 2 == 0, "pre": True}
 
 
     # crops with more than 100 batches (three-digit ids)
@@ -180,6 +189,20 @@ def make_crop_and_sow(f, d, case, combos, fn_args, cs, constants):
     if case["swhere"] == "sow" and kind in ("grid", "mix"):
         skw["shuffle"] = case["sval"]
     dcombos = {a: v for a, v in combos} if combos else None
+    if case.get("pre") and kind in ("grid", "mix"):
+        # an earlier sweep through the same Crop object - another shuffle,
+        # another constant - sown, looked at and grown but never reaped; its
+        # results are still there when the crop is sown again below
+        import copy
+
+        pc = {"k": 9} if constants else None
+        crop.sow_combos(
+            copy.deepcopy(dcombos), constants=pc, verbosity=0, shuffle=13,
+            cases=[dict(zip(fn_args, c)) for c in cs] if kind == "mix"
+            else None)
+        crop.missing_results(), crop.num_sown_batches, str(crop)
+        xyz.Crop(name=NAME, parent_dir=d).grow_missing(verbosity=0)
+        crop.is_ready_to_reap()
     if kind == "grid":
         crop.sow_combos(dcombos, constants=constants, verbosity=0, **skw)
     elif kind == "mix":
